@@ -99,6 +99,9 @@ private:
 public:
   ghost_variable_manager_with_fixed_naming(get_type_fn get_type)
       : m_get_type(get_type) {}
+  // The type function usually refers to the abstract value that owns
+  // the manager, so the owner must reset it after copying a manager.
+  void set_type_fn(get_type_fn get_type) { m_get_type = get_type; }
   ghost_variable_manager_with_fixed_naming(const ghost_var_manager_t &o) =
       default;
   ghost_variable_manager_with_fixed_naming(ghost_var_manager_t &&o) = default;
@@ -472,6 +475,9 @@ private:
 public:
   ghost_variable_manager_with_variable_naming(get_type_fn get_type)
       : m_get_type(get_type) {}
+  // The type function usually refers to the abstract value that owns
+  // the manager, so the owner must reset it after copying a manager.
+  void set_type_fn(get_type_fn get_type) { m_get_type = get_type; }
   ghost_variable_manager_with_variable_naming(const ghost_var_manager_t &o) =
       default;
   ghost_variable_manager_with_variable_naming(ghost_var_manager_t &&o) =
